@@ -814,6 +814,40 @@ def mutate_tuple(g, L, tup, fixed, rng):
     return t
 
 
+def resplit_elements(L, tuples, fixed, rng):
+    """other fixed sizes with the same number of bytes per element, and the tuples' bytes cut
+    into fields of those sizes (plain fields keep one object); None when there is no other
+    distribution"""
+    fx = [k for k, p in enumerate(L) if p.kind == FIXED]
+    total = sum(fixed[n] * L[k].size for n, k in enumerate(fx))
+    for _ in range(20):
+        cand = [rng.choice([0, 1, 2, 3, 4]) for _ in fx]
+        if cand != list(fixed) and sum(c * L[k].size for c, k in zip(cand, fx)) == total:
+            break
+    else:
+        return None
+    out = []
+    for t in tuples:
+        flat = [b for f in t for o in f for b in o]
+        nt, pos, fi = [], 0, 0
+        for p in L:
+            cnt = 1
+            if p.kind == FIXED:
+                cnt = cand[fi]
+                fi += 1
+            nt.append([flat[pos + q * p.size: pos + (q + 1) * p.size] for q in range(cnt)])
+            pos += cnt * p.size
+        if pos != len(flat):
+            return None
+        for f, p in zip(nt, L):
+            if p.ty == TFLT:
+                for o in f:
+                    if is_nan(o):
+                        o[-1] &= 0xBF
+        out.append(nt)
+    return cand, out
+
+
 def gen_compare(L, K, rng):
     """two or three vectors with related contents (equal / one field differs / strict prefix /
     empty / different fixed sizes), built under different junk fills, capacities and
@@ -838,9 +872,19 @@ def gen_compare(L, K, rng):
             fixed[rng.randrange(nf)] = rng.choice([0, 1, 2, 3, 4])
             g.stat("cmp-different-fixed-sizes")
         how = rng.choice(["same", "same", "mutated", "prefix", "longer", "empty", "fresh"]) if s else "fresh"
+        resplit = None
+        if s and base and nf >= 2 and not has_varying(L) and fixed == fixed0 and rng.random() < 0.3:
+            # the SAME bytes cut into fields of other sizes: another distribution of the fixed sizes
+            # with the same number of bytes per element (seeded change C13g: equal concatenated
+            # bytes must not make elements with different field sizes compare equal)
+            resplit = resplit_elements(L, base, fixed0, rng)
+        if resplit is not None:
+            fixed, how = resplit[0], "resplit"
         g.stat("cmp-operand-" + how)
         n = rng.choice([1, 2, 3, 4])
-        if how == "empty":
+        if how == "resplit":
+            tuples = resplit[1]
+        elif how == "empty":
             tuples = []
         elif how == "fresh" or fixed != fixed0 or not base:
             tuples = [g.rand_tuple(fixed, 3) for _ in range(n)]
